@@ -22,13 +22,14 @@ type World struct {
 	strLits  map[string]*smt.Term
 	strOrder []string
 	typeIDs  map[string]int
+	typeOfID map[string]types.Type
 	zeroMemo map[smt.Sort]*smt.Term
 }
 
 func NewWorld(modPath string) *World {
 	w := &World{C: smt.NewCtx(), ModPath: modPath, sortMemo: map[types.Type]smt.Sort{},
 		dtOf: map[smt.Sort]*smt.Datatype{}, structOf: map[smt.Sort]*types.Struct{}, strLits: map[string]*smt.Term{},
-		typeIDs: map[string]int{}, zeroMemo: map[smt.Sort]*smt.Term{}}
+		typeIDs: map[string]int{}, typeOfID: map[string]types.Type{}, zeroMemo: map[smt.Sort]*smt.Term{}}
 	w.Str = "Str"
 	w.Iface = "Iface"
 	w.C.DeclareSort(w.Str)
@@ -229,6 +230,7 @@ func (w *World) TypeID(t types.Type) int {
 	}
 	id := len(w.typeIDs) + 1
 	w.typeIDs[k] = id
+	w.typeOfID[k] = t
 	return id
 }
 
